@@ -6,7 +6,7 @@ cd /verif
 for d in seeded/C*-$suf; do
   s=$(basename "$d"); p=${s%%-*}
   extra=""
-  case "$s" in C08-i) extra="C04";; C09-i) extra="C08";; esac
+  case "$s" in C08-i) extra="C04";; C09-i) extra="C08";; C10-j) extra="C04";; esac
   wt="/tmp/sc/hr.$s"
   git -C /repo worktree add -q --detach "$wt" HEAD || continue
   if git -C "$wt" apply "/verif/seeded/$s/patch.diff"; then
